@@ -303,7 +303,22 @@ Fixpoint strip_ch_prefix (l : list N) (ch max : N) : list N :=
   | x :: t => if (0 <? max) && (x =? ch) then strip_ch_prefix t ch (max - 1) else l
   end.
 Definition l0_without_prefix_ch (l : list N) (ch max : N) : list N := strip_ch_prefix l ch max.
-Definition l0_without_suffix_ch (l : list N) (ch max : N) : list N := rev (strip_ch_prefix (rev l) ch max).
+Definition l0_without_suffix_ch (l : list N) (ch max : N) : list N := strip_suffix_fuel (S (length l)) l [ch] max.
+
+(* operator-=: cut out the last occurrence *)
+Definition l0_minus (l x : list N) : list N :=
+  match x with
+  | [] => l
+  | _ => match l0_last_index_of1 l x with
+         | Zneg _ => l
+         | z => takeN (Z.to_N z) l ++ dropN (Z.to_N z + lenN x) l
+         end
+  end.
+Definition l0_minus_ch (l : list N) (ch : N) : list N :=
+  match l0_last_index_of_ch l ch 0 with
+  | Zneg _ => l
+  | z => takeN (Z.to_N z) l ++ dropN (Z.to_N z + 1) l
+  end.
 
 Definition l0_padded (l : list N) (minLen : N) (right : bool) (ch : N) : list N :=
   if (lenN l <? minLen) && negb (ch =? 0)
